@@ -7,6 +7,7 @@ from .. import cprgen
 from .C06 import WINDOW_HI
 
 LEVEL = "exploration"
+BRANCH_TARGETS = ['pyModeS.decoder.bds.bds06:surface_position', 'pyModeS.decoder.adsb:position']
 TECHNIQUE = 'runtime monitoring: reference surface CPR encoder (Nb=19) as oracle, receiver placed within the stated premise'
 LEVEL_TEXT = 'Exploration dense where the 90-degree ambiguity is resolved (equator, lon 0/+-90/+-180, NL transitions); premise (<=45 NM, <45 deg) checked per case.'
 LEVEL_RULE = (
